@@ -41,6 +41,7 @@ func runOne(t *testing.T, c *Case, work, sched *choice.Source, out *wproto.Out, 
 			out.Finding(id, rep.Sig, "race", fmt.Sprintf("%s: data race between %s and %s\n%s", st.Desc, rep.Tops[0], rep.Tops[1], rep.Text), c)
 		}
 	}
+	out.Trace(id, st.MapDep, []any{st.TraceHashes, st.Steps, st.Preempt, st.Tasks}, []any{sigs, st.Workers, st.Desc})
 	out.End(id, sigs)
 	out.Count("evaluations", 1)
 	out.Count("kind."+c.Kind, 1)
